@@ -145,6 +145,18 @@ def _impure(e):
 def cmp_constraints(cond, truth, subst=None, ren=None):
     """Constraints (list of Lin >= 0) implied by `cond` having the given truth, or []
     when nothing linear follows (e.g. a disequality)."""
+    if cond["k"] == "bin" and cond["op"] in ("<", "<=", ">", ">=", "==", "!="):
+        # `(v = E) op X`: the comparison is about v's new value (the store has been applied)
+        def _asg(e):
+            x = e
+            while x["k"] in ("cast", "paren"):
+                x = x["e"]
+            if x["k"] == "bin" and x["op"] == "=" and x["l"]["k"] == "ref" and not _impure(x["r"]):
+                return x["l"]
+            return e
+        l2, r2 = _asg(cond["l"]), _asg(cond["r"])
+        if l2 is not cond["l"] or r2 is not cond["r"]:
+            cond = dict(cond, l=l2, r=r2)
     if _impure(cond):
         return []
     if cond["k"] == "un" and cond["op"] == "!":
@@ -156,14 +168,26 @@ def cmp_constraints(cond, truth, subst=None, ren=None):
         op = cond["op"]
         if not truth:
             op = {"<": ">=", "<=": ">", ">": "<=", ">=": "<", "==": "!=", "!=": "=="}[op]
+        # an int converted to unsigned long for the comparison: when the smaller side is such an
+        # int, it is non-negative unless the other side is negative as a signed number
+        uns = []
+        if op in ("<", "<=", ">", ">="):
+            lo_e, lo_l, hi_l = (cond["l"], a, b) if op in ("<", "<=") else (cond["r"], b, a)
+            if lo_e.get("ty") == "int" and str(lo_e.get("cty", "")).startswith("unsigned long") and not lo_l.is_const():
+                uns = [("or", [lo_l], [hi_l.scale(-1) - Lin(k=1)])]
+            hi_e = cond["r"] if op in ("<", "<=") else cond["l"]
+            if hi_e.get("ty") == "int" and str(hi_e.get("cty", "")).startswith("unsigned long") and not hi_l.is_const():
+                # the larger side is such an int: it is larger as written, or it is negative
+                main = (hi_l - lo_l - Lin(k=1)) if op in ("<", ">") else (hi_l - lo_l)
+                return [("or", [main], [hi_l.scale(-1) - Lin(k=1)])] + uns
         if op == "<":
-            return [b - a - Lin(k=1)]
+            return [b - a - Lin(k=1)] + uns
         if op == "<=":
-            return [b - a]
+            return [b - a] + uns
         if op == ">":
-            return [a - b - Lin(k=1)]
+            return [a - b - Lin(k=1)] + uns
         if op == ">=":
-            return [a - b]
+            return [a - b] + uns
         if op == "==":
             return [a - b, b - a]
         if op == "!=":
@@ -205,6 +229,13 @@ def _tighten(l):
 def feasible(cons):
     """Fourier-Motzkin: is the conjunction of  L >= 0  (and integer disequalities
     ("ne", L): L != 0, split into L >= 1 or L <= -1) satisfiable over the rationals?"""
+    ors = [c for c in cons if isinstance(c, tuple) and c and c[0] == "or"]
+    if ors:
+        rest = [c for c in cons if not (isinstance(c, tuple) and c and c[0] == "or")]
+        if len(ors) > 3:
+            return feasible(rest)        # ignore them (weaker hypotheses: still sound)
+        first, more = ors[0], ors[1:]
+        return feasible(rest + more + list(first[1])) or feasible(rest + more + list(first[2]))
     nes = [c for c in cons if isinstance(c, tuple)]
     if nes:
         rest = [c for c in cons if not isinstance(c, tuple)]
